@@ -20,6 +20,7 @@ TARGETS = [
     ("trait_notifiers.py", "TraitChangeNotifyWrapper", "_notify_function_listener"),
     ("trait_notifiers.py", "TraitChangeNotifyWrapper", "_notify_method_listener"),
     ("trait_notifiers.py", "TraitChangeNotifyWrapper", "equals"),
+    ("trait_notifiers.py", "TraitChangeNotifyWrapper", "listener_deleted"),
     ("observation/_has_traits_helpers.py", None, "ctrait_prevent_event"),
     ("observation/_trait_event_notifier.py", "TraitEventNotifier", "__call__"),
 ]
@@ -160,6 +161,10 @@ class Tr:
                     return self.mk("weak_deref", [self.expr(v)])
                 if f.attr == "dispatcher":
                     return self.mk("user_handler", self.args(c))
+            if (isinstance(v, ast.Attribute) and isinstance(v.value, ast.Name) and v.value.id == "self"
+                    and v.attr == "owner" and f.attr == "remove" and len(c.args) == 1
+                    and isinstance(c.args[0], ast.Name) and c.args[0].id == "self" and not c.keywords):
+                return self.mk("owner_remove", [self.expr(c.args[0])])
             if isinstance(v, ast.Name) and v.id == "object" and f.attr == "_trait":
                 return self.mk("object_trait", [self.expr(v)] + self.args(c))
             if (isinstance(v, ast.Attribute) and v.attr == "object" and isinstance(v.value, ast.Name)
@@ -185,6 +190,9 @@ class Tr:
             return ".pass"
         if isinstance(s, ast.Return):
             return "(.ret %s)" % (".noneLit" if s.value is None else self.expr(s.value))
+        if isinstance(s, ast.Assign) and all(
+                isinstance(t, ast.Attribute) and isinstance(t.value, ast.Name) and t.value.id == "self" for t in s.targets):
+            return "(.setSelf %d %s)" % (len(s.targets), self.expr(s.value))
         if isinstance(s, ast.Assign):
             if len(s.targets) != 1 or not isinstance(s.targets[0], ast.Name):
                 raise Unsupported("assignment target")
@@ -199,7 +207,10 @@ class Tr:
             if s.finalbody or len(s.handlers) != 1:
                 raise Unsupported("try shape")
             h = s.handlers[0]
-            if not (isinstance(h.type, ast.Name) and h.type.id == "Exception"):
+            only_remove = (len(s.body) == 1 and isinstance(s.body[0], ast.Expr) and isinstance(s.body[0].value, ast.Call)
+                           and self.expr(s.body[0].value).startswith("(.call .owner_remove"))
+            if not (isinstance(h.type, ast.Name) and (h.type.id == "Exception" or (h.type.id == "ValueError" and only_remove))):
+                # `except ValueError` is accepted around `self.owner.remove(self)` only (list.remove raises nothing else)
                 raise Unsupported("except clause")
             v = "none" if h.name is None else "(some %d)" % self.slot(h.name)
             return "(.tryS %s\n%s  %s %s\n%s  %s)" % (self.stmts(s.body, ind + "  "), ind, v,
@@ -222,6 +233,31 @@ def find(tree, cls, fn):
     return fs[0]
 
 
+def argument_transforms(tree, cls):
+    """The class attribute `argument_transforms = {n: lambda obj, name, old, new: (…), …}` as data."""
+    cs = [n for n in tree.body if isinstance(n, ast.ClassDef) and n.name == cls]
+    if len(cs) != 1:
+        raise Unsupported("class %s" % cls)
+    ds = [n for n in cs[0].body if isinstance(n, ast.Assign) and len(n.targets) == 1
+          and isinstance(n.targets[0], ast.Name) and n.targets[0].id == "argument_transforms"]
+    if len(ds) != 1 or not isinstance(ds[0].value, ast.Dict):
+        raise Unsupported("%s.argument_transforms is not one dict display" % cls)
+    out = []
+    for k, v in zip(ds[0].value.keys, ds[0].value.values):
+        if not (isinstance(k, ast.Constant) and isinstance(k.value, int) and isinstance(v, ast.Lambda)):
+            raise Unsupported("%s.argument_transforms entry" % cls)
+        ps = [a.arg for a in v.args.args]
+        if len(ps) != 4 or v.args.vararg or v.args.kwarg or v.args.defaults or not isinstance(v.body, ast.Tuple):
+            raise Unsupported("%s.argument_transforms[%d]: lambda shape" % (cls, k.value))
+        sel = []
+        for e in v.body.elts:
+            if not (isinstance(e, ast.Name) and e.id in ps):
+                raise Unsupported("%s.argument_transforms[%d]: element is not a parameter" % (cls, k.value))
+            sel.append(["obj", "name", "old", "new"][ps.index(e.id)])
+        out.append((k.value, sel))
+    return out
+
+
 def lean_name(cls, fn):
     base = {"__call__": "call", "__init__": "init"}.get(fn, fn.lstrip("_"))
     return base if cls is None else "%s_%s" % (cls, base)
@@ -242,6 +278,11 @@ def emit(traits_dir):
         slots = " ".join("%d=%s" % (i, n) for n, i in sorted(tr.slots.items(), key=lambda kv: kv[1]))
         L.append("/-- `%s%s` (traits/%s); slots %s -/" % ((cls + "." if cls else ""), fn, path, slots))
         L.append("def %s : Func := { nparams := %d, body :=\n      %s }\n" % (lean_name(cls, fn), tr.nparams, body))
+    tree = trees["trait_notifiers.py"]
+    for cls in ("StaticAnytraitChangeNotifyWrapper", "StaticTraitChangeNotifyWrapper", "TraitChangeNotifyWrapper"):
+        L.append("/-- `%s.argument_transforms`: arity of the handler -> what it receives -/" % cls)
+        L.append("def %s_argument_transforms : List (Nat × List Sel) := [%s]\n" % (cls, ", ".join(
+            "(%d, [%s])" % (k, ", ".join("." + x for x in sel)) for k, sel in argument_transforms(tree, cls))))
     L.append("end TraitsVerif.Generated.WrapProg")
     return "\n".join(L) + "\n"
 
